@@ -53,6 +53,12 @@ def check_scan(chk, rep0, repo, pre="", only=None):
         for bs in find_best_scans(w, li):
             scans.append(bs)
     scans = [b for b in scans if b.loop.kind in ("while", "for") and b.loop.loops]
+    if not scans and getattr(w, "truthy_optional", None):
+        v, lid, e0 = w.truthy_optional[0]
+        rep.ev("SCAN-none-test", e0, False,
+               f"the running minimum '{v}' starts as None and 'nothing found yet' is tested by truthiness: a minimum of exactly 0 "
+               "counts as nothing found, so the scan goes on and a later, worse offer replaces the zero-cost conqueror")
+        return
     if not scans:
         # no running-minimum scan: if a label / conqueror is nevertheless recorded under `candidate < m` where m is never
         # updated in the loop, the comparison is against the START value, not the best so far - the violation itself
@@ -189,6 +195,10 @@ def check_scan(chk, rep0, repo, pre="", only=None):
     # companions
     labs = {n: v for n, v in bs.companions.items()
             if v[1] == ("attr", node(nxt), "predicted_label") or v[0] == ("attr", node(t0), "predicted_label")}
+    if from_zero:
+        # every sample, the first included, goes through the acceptance test and the first one passes it (its offer is finite):
+        # what the companions hold before that is never seen
+        labs = {n: ((("attr", node(t0), "predicted_label"), v[1]) if v[0][0] in ("const", "K") else v) for n, v in labs.items()}
     # direct form: no label variable - the label is written to the query node with the first offer and again with
     # every accepted one (the last write is the winner's)
     stores = [e for e in w.events if e.kind == "store" and e.target == ("attr", x, "predicted_label")]
